@@ -1,7 +1,7 @@
 (** * Splice inside histories: the machine's [OSplice] refines [WorldSpec.sp_splice]. *)
 From AV.Model Require Import Base Bytes Vec Ops Interp.
 From AV.Spec Require Import VecSpec.
-From AV.Proofs Require Import MemLemmas Rep VecProofs TempProofs RangeProofs CapProofs CloneProofs NoFault HandleProofs.
+From AV.Proofs Require Import MemLemmas Rep VecProofs TempProofs RangeProofs CapProofs CloneProofs NoFault HandleProofs FaultProofs.
 From WIP Require Import WorldSpec WorldCore.
 Arguments N.add : simpl never.
 Arguments N.sub : simpl never.
@@ -50,9 +50,9 @@ Qed.
 
 (** a splice whose preparation is refused: the replacement values are destroyed, once each, in order;
     the storage is as the live iterator left it *)
-Lemma splice_drop_prep_panic c v u known d ts k p :
-  ufuse u = None -> splice_prep c known d (N.of_nat (length ts)) (v, u) = Panic p (v, u) ->
-  exists u', splice_drop c known d (N.of_nat (length ts)) (map (fun t => honest_item c t k) ts) (v, u) = Panic p (v, u') /\
+Lemma splice_drop_prep_panic c v u known d ts k p cl :
+  ufuse u = None -> splice_prep c known d cl (v, u) = Panic p (v, u) ->
+  exists u', splice_drop c known d cl (map (fun t => honest_item c t k) ts) (v, u) = Panic p (v, u') /\
     unext u' = unext u /\ ufuse u' = None /\
     uevents u' = (if c_dg c then rev (map EDrop ts) else []) ++ uevents u.
 Proof.
@@ -111,12 +111,12 @@ Qed.
 Lemma exec_splice c w st a vid sb eb pat f rk n wrong_at claimed r :
   cfg_wf c -> WRep c w st -> ufuse (wuw w) = None ->
   sp_splice c st (unext (wuw w)) vid sb eb pat f rk n wrong_at claimed = Some r ->
-  adm_splice c w vid sb eb n ->
+  adm_splice c w vid sb eb claimed ->
   res_matches c w (exec c (OSplice a vid sb eb pat f rk n wrong_at claimed) w) r.
 Proof.
   intros Hwf HW Hfuse Hr Hadm.
-  destruct (sp_splice_inv _ _ _ _ _ _ _ _ _ _ _ _ _ Hr) as (Hrk & -> & -> & Hr').
-  clear Hr. rename Hr' into Hr. unfold sp_splice in Hr. rewrite N.eqb_refl in Hr. cbn [negb] in Hr.
+  destruct (sp_splice_inv _ _ _ _ _ _ _ _ _ _ _ _ _ Hr) as (Hrk & -> & Hr').
+  clear Hr. rename Hr' into Hr. unfold sp_splice in Hr.
   destruct (get_a vid st) as [av|] eqn:Hg; [|discriminate].
   destruct (wrep_get c w st vid av HW Hg) as (vv & Hgv & HV).
   pose proof (vi_rep _ _ _ HV) as HR. pose proof (rep_len _ _ _ HR) as Hlen.
@@ -126,6 +126,8 @@ Proof.
   set (ts := next_ids c (unext (wuw w)) nn) in *.
   assert (Hlts : length ts = nn) by apply next_ids_length.
   assert (Hn : n = N.of_nat (length ts)) by (rewrite Hlts; unfold nn; lia).
+  set (cl := N.to_nat claimed) in *.
+  assert (Hcl' : claimed = N.of_nat cl) by (unfold cl; lia).
   set (w0 := bump_by (N.of_nat nn) w).
   assert (HW0 : WRep c w0 st) by (apply (wrep_wv c w w0 st eq_refl HW)).
   assert (Hgv0 : get_vec vid w0 = Some vv) by exact Hgv.
@@ -164,7 +166,7 @@ Proof.
       - exact Hfuse0.
       - reflexivity. }
     destruct (sp_walk xs pat s e) as [[[[rets ds] i'] j']|] eqn:Ewalk; [|discriminate].
-    set (finish := fun k : cursor => on_vec vid (splice_drop c (known_of a) (with_cur k d) n items)).
+    set (finish := fun k : cursor => on_vec vid (splice_drop c (known_of a) (with_cur k d) claimed items)).
     destruct (walk_spec c w0 vid av vv s e a HV Hse' Hel' finish pat s e w2 [] rets ds i' j'
                 Hwk0 (le_n s) Hse' (le_n e) Ewalk) as (ww' & Ew & Hwk & Hb1 & Hb2 & Hb3).
     cbn [app] in Hwk.
@@ -180,17 +182,17 @@ Proof.
     destruct f.
     + (* the iterator is dropped *)
       pose proof (range_alive_any c vv xs s e i' j' HR Hb1 Hb2 Hb3 Hel') as HA. fold vr in HA.
-      assert (Hnl : N.of_nat s + n + N.of_nat (length xs - e) = N.of_nat (s + length ts + (length xs - e))) by lia.
+      assert (Hnl : N.of_nat s + claimed + N.of_nat (length xs - e) = N.of_nat (s + cl + (length xs - e))) by lia.
       rewrite Hnl in Hr.
-      assert (Hpanic : forall p, splice_prep c (known_of a) (with_cur {| ci := N.of_nat i'; ce := N.of_nat j' |} d) (N.of_nat (length ts)) (vr, wuw ww')
+      assert (Hpanic : forall p, splice_prep c (known_of a) (with_cur {| ci := N.of_nat i'; ce := N.of_nat j' |} d) (N.of_nat cl) (vr, wuw ww')
                                  = Panic p (vr, wuw ww') ->
                 r = panic_res p (flat_map (drop_ev c) ds ++ (if c_dg c then map EDrop ts else []))
                               (set_a vid (Some (with_xs av (firstn s xs))) st) (unext (wuw w) + n) ->
                 res_matches c w ((finish {| ci := N.of_nat i'; ce := N.of_nat j' |};; ret (0, N.of_nat (e - s) :: rets)) ww') r).
       { intros p Hprep ->.
-        destruct (splice_drop_prep_panic c vr (wuw ww') (known_of a) _ ts (rk_flag rk) p Hf Hprep) as (u' & Ed & Hn' & Hf' & He').
+        destruct (splice_drop_prep_panic c vr (wuw ww') (known_of a) _ ts (rk_flag rk) p _ Hf Hprep) as (u' & Ed & Hn' & Hf' & He').
         assert (Efin : finish {| ci := N.of_nat i'; ce := N.of_nat j' |} ww' = Panic p (put_vec vid (Some vr) u' ww')).
-        { unfold finish. apply (on_vec_panic vid _ ww' vr p vr u' Hv). rewrite Hn at 1. exact Ed. }
+        { unfold finish. apply (on_vec_panic vid _ ww' vr p vr u' Hv). rewrite Hcl' at 1. exact Ed. }
         rewrite (bind_panic _ _ _ _ _ Efin).
         cbn [res_matches panic_res s_out s_pk s_ret s_st s_evs s_nx].
         split; [reflexivity|split; [reflexivity|split; [reflexivity|]]].
@@ -201,34 +203,35 @@ Proof.
         - rewrite wuw_put. rewrite He', He. rewrite rev_app_distr.
           destruct (c_dg c); cbn [rev app]; rewrite <- ?app_assoc; try rewrite map_rev; reflexivity. }
       rewrite Hcl.
-      destruct (N.ltb_spec usize_max (N.of_nat (s + length ts + (length xs - e)))) as [Hov|Hnov].
+      destruct (N.ltb_spec usize_max (N.of_nat (s + cl + (length xs - e)))) as [Hov|Hnov].
       * injection Hr as Hr. apply (Hpanic POverflow); [|symmetry; exact Hr].
-        apply (splice_prep_overflow c vr (wuw ww') xs s e i' j' (known_of a) (length ts) HA Hov).
-      * destruct (match acap c (a_bk av) with Some cap => cap <? N.of_nat (s + length ts + (length xs - e)) | None => false end) eqn:Ecap.
+        apply (splice_prep_overflow c vr (wuw ww') xs s e i' j' (known_of a) cl HA Hov).
+      * destruct (match acap c (a_bk av) with Some cap => cap <? N.of_nat (s + cl + (length xs - e)) | None => false end) eqn:Ecap.
         -- injection Hr as Hr. apply (Hpanic PCapacity); [|symmetry; exact Hr].
            destruct (acap c (a_bk av)) as [cap|] eqn:Ea; [|discriminate].
            apply N.ltb_lt in Ecap.
            assert (Hcapv : vcap vv = cap). { pose proof (vi_cap _ _ _ HV) as H. rewrite Ea in H. exact H. }
-           apply (splice_prep_capacity c vr (wuw ww') xs s e i' j' (known_of a) (length ts) HA).
+           apply (splice_prep_capacity c vr (wuw ww') xs s e i' j' (known_of a) cl HA).
            ++ unfold vr. cbn [with_len vbk]. rewrite (vi_bk _ _ _ HV). eapply acap_fixed; eauto.
            ++ unfold vr. cbn [with_len vcap]. lia.
            ++ exact Hnov.
         -- injection Hr as <-.
-           assert (Hroom : N.of_nat (s + length ts + (length xs - e)) <= vcap vr \/
-                           grow_ok c vr (N.of_nat (s + length ts + (length xs - e)))).
+           assert (Hroom : N.of_nat (s + cl + (length xs - e)) <= vcap vr \/
+                           grow_ok c vr (N.of_nat (s + cl + (length xs - e)))).
            { destruct (acap c (a_bk av)) as [cap|] eqn:Ea.
              - left. apply N.ltb_ge in Ecap. pose proof (vi_cap _ _ _ HV) as H. rewrite Ea in H.
                unfold vr. cbn [with_len vcap]. lia.
              - assert (Hnf : ~ fixed_backend (vbk vv)). { rewrite (vi_bk _ _ _ HV). eapply acap_none_not_fixed; eauto. }
                cbv zeta in Hadm.
-               assert (Hx : sN + n + (N.of_nat (length xs) - eN) = N.of_nat (s + length ts + (length xs - e))) by lia.
+               assert (Hx : sN + claimed + (N.of_nat (length xs) - eN) = N.of_nat (s + cl + (length xs - e))) by lia.
                rewrite Hx in Hadm.
                destruct Hadm as [H1|[H1|[H1|H1]]]; [left; exact H1|contradiction|lia|right; exact H1]. }
-           destruct (splice_drop_spec c vr (wuw ww') xs s e i' j' (known_of a) ts (rk_flag rk) Hwf HA Hf
+           destruct (splice_drop_liar_full c vr (wuw ww') xs s e i' j' (known_of a) ts (rk_flag rk) cl Hwf HA Hf
                        (next_ids_tok_ok _ _ _) Hroom)
              as (v' & u' & Ed & HR' & Hb' & Hn' & Hf' & He' & Hc').
+           rewrite Hlts in HR', He'.
            assert (Efin : finish {| ci := N.of_nat i'; ce := N.of_nat j' |} ww' = Ok tt (put_vec vid (Some v') u' ww')).
-           { unfold finish. apply (on_vec_ok vid _ ww' vr tt v' u' Hv). rewrite Hn at 1. exact Ed. }
+           { unfold finish. apply (on_vec_ok vid _ ww' vr tt v' u' Hv). rewrite Hcl' at 1. exact Ed. }
            rewrite (bind_ok _ _ _ _ _ Efin). unfold ret.
            cbn [res_matches ok_res s_out s_pk s_ret s_st s_evs s_nx].
            split; [reflexivity|split; [reflexivity|split; [reflexivity|]]].
@@ -244,7 +247,7 @@ Proof.
            ++ rewrite wuw_put. lia.
            ++ rewrite wuw_put. exact Hf'.
            ++ rewrite wuw_put. rewrite He', He. rewrite !rev_app_distr.
-              rewrite rev_repeat. unfold nn in Hlts. rewrite Hlts.
+              rewrite rev_repeat.
               destruct (c_dg c); cbn [rev app]; rewrite <- ?app_assoc; try rewrite map_rev; reflexivity.
     + (* the iterator is leaked: so are the replacement values *)
       injection Hr as <-. unfold ret, bind. rewrite Hcl.
